@@ -81,7 +81,16 @@ fn gen_item(t: &mut Tape, target: Target) -> String {
                 generics: true,
                 async_methods: true,
             };
-            gen::gen_trait(t, "Tr", &cfg).render()
+            let mut tr = gen::gen_trait(t, "Tr", &cfg);
+            // some methods take `&mut self` (what the generated impl asks of `T` then depends on the delegation)
+            for it in tr.items.iter_mut() {
+                if let gen::TraitItemSrc::Method(m) = it {
+                    if m.receiver == "&self" && t.chance(1, 5) {
+                        m.receiver = "&mut self".to_string();
+                    }
+                }
+            }
+            tr.render()
         }
         Target::Impl => {
             let n = t.range(0, 3);
@@ -181,7 +190,17 @@ fn gen_pair(t: &mut Tape) -> Option<Pair> {
     let base_macro = e1::MACROS[t.weighted(&[6, 1, 1, 1])].to_string();
     let base = render_attr(&head, &opts);
     let has = |name: &str| opts.iter().any(|o| o.name == name);
-    match t.weighted(&[3, 2, 3, 3]) {
+    match t.weighted(&[3, 2, 3, 3, 2]) {
+        4 => {
+            // R5: `delegate_by = Self` / a bare `delegate_by` == omitted (the documented default)
+            if target != Target::Trait || has("delegate_by") || !head.is_empty() {
+                return None;
+            }
+            let mut o2 = opts.clone();
+            let pos = t.choose(o2.len() + 1);
+            o2.insert(pos, Opt { name: "delegate_by", form: Form::Bare, text: Some(if t.flip() { "delegate_by = Self" } else { "delegate_by" }) });
+            Some(Pair { relation: "delegate_by=Self==omitted", item, a: (base_macro.clone(), base), b: (base_macro, render_attr(&head, &o2)) })
+        }
         0 => {
             // R1: bare == `= true`
             let idx: Vec<usize> = opts.iter().enumerate().filter(|(_, o)| o.is_true()).map(|(i, _)| i).collect();
